@@ -142,6 +142,9 @@ class ArgNS:
     def __init__(self, d):
         self.d = dict(d)
 
+    def abs_setattr(self, name, value):
+        self.d[name] = value
+
     def __repr__(self):
         return f"<args {self.d}>"
 
@@ -154,7 +157,12 @@ def ns_hook(it, obj, attr):
     return NotImplemented
 
 
-def _convert(o, tok):
+def _convert(o, tok, convert=None):
+    if isinstance(o.type, Expr) and o.type.src not in ("int", "float", "str") and convert is not None:
+        v = convert(o.type.src, tok)              # a conversion function of the repository (interpreted by the caller)
+        if o.choices is not None and not isinstance(o.choices, Expr) and v not in o.choices:
+            raise Raised("SystemExit", f"argument {'/'.join(o.flags)}: invalid choice: {tok!r}")
+        return v
     if o.type == Expr(ast.parse("int", mode="eval").body):
         try:
             v = int(tok)
@@ -173,10 +181,15 @@ def _convert(o, tok):
     return v
 
 
-def parse(parser, argv):
+def parse(parser, argv, convert=None):
     ns = {}
     for o in parser.opts:
-        ns.setdefault(o.dest, o.default)
+        d = o.default
+        if isinstance(d, str) and o.type is not None and o.action in ("store", "append", "extend"):
+            d = _convert(Opt(o.flags, dict(o.kw, choices=None), o.where), d, convert)          # argparse runs `type` over a string default
+        if isinstance(d, list):
+            d = list(d)
+        ns.setdefault(o.dest, d)
     for k, v in parser.defaults.items():
         ns[k] = v
     flag_of = {f: o for o in parser.opts if not o.positional for f in o.flags}
@@ -238,7 +251,7 @@ def parse(parser, argv):
                         raise Raised("SystemExit", f"argument {tok}: expected {'at least one' if want == '+' else want} argument(s)")
                 else:
                     raise Undecided(f"nargs {want!r} of {o}")
-            conv = [_convert(o, v) for v in vals]
+            conv = [_convert(o, v, convert) for v in vals]
             if o.nargs is None:
                 value = conv[0]
             elif o.nargs == "?":
@@ -266,17 +279,17 @@ def parse(parser, argv):
         if o.nargs is None:
             if k >= len(free):
                 raise Raised("SystemExit", f"the following arguments are required: {o.dest}")
-            ns[o.dest] = _convert(o, free[k])
+            ns[o.dest] = _convert(o, free[k], convert)
             k += 1
         elif o.nargs == "?":
             if k < len(free):
-                ns[o.dest] = _convert(o, free[k])
+                ns[o.dest] = _convert(o, free[k], convert)
                 k += 1
         elif o.nargs in ("*", "+"):
             take = free[k:len(free) - fixed_after]
             if o.nargs == "+" and not take:
                 raise Raised("SystemExit", f"the following arguments are required: {o.dest}")
-            ns[o.dest] = [_convert(o, t) for t in take]
+            ns[o.dest] = [_convert(o, t, convert) for t in take]
             k += len(take)
         else:
             raise Undecided(f"positional nargs {o.nargs!r}")
